@@ -9,6 +9,7 @@ from ..ctx import sites, dominates
 from ..engines.ownership import Ownership
 from ..frontend import Repo
 from ..model import is_subscribe_call, model_of
+from ..rules import cell_name, names_assigned_const, names_augmented
 from . import typestate_common as TC
 
 SW = "reactivex/operators/_switchlatest.py"
@@ -18,6 +19,15 @@ COMPOSITES = {
     ("reactivex/operators/__init__.py", "switch_map"): ["map", "switch_latest"],
     ("reactivex/operators/__init__.py", "switch_map_indexed"): ["map_indexed", "switch_latest"],
 }
+
+
+def _eq_guard(e, pol, latest, idv) -> bool:
+    """guard `latest == id` (either order) holding, or `latest != id` failing"""
+    if isinstance(e, ast.Compare) and len(e.ops) == 1 and isinstance(e.ops[0], (ast.Eq, ast.NotEq)):
+        a, b = cell_name(e.left), cell_name(e.comparators[0])
+        if {a, b} == {latest, idv}:
+            return pol == isinstance(e.ops[0], ast.Eq)
+    return False
 
 
 def check(repo: Repo, rep: Report) -> None:
@@ -41,8 +51,18 @@ def check(repo: Repo, rep: Report) -> None:
     rep.require(outer_next is not None, "outer on_next")
     inner_sub = [s for s in sites(outer_next) if is_subscribe_call(s.node)]
     rep.require(len(inner_sub) == 1, "inner subscription in switch_latest")
-    cap = [s for s in sites(outer_next) if isinstance(s.node, ast.Assign) and isinstance(s.node.targets[0], ast.Name) and "latest" in u(s.node.value)]
-    inc = [s for s in sites(outer_next) if isinstance(s.node, ast.AugAssign) and "latest" in u(s.node.target) and isinstance(s.node.op, ast.Add)]
+    # roles: `latest` is the cell the outer element handler increments; the captured id is the local copied from it;
+    # the stopped flag is the cell the outer completion sets True; has-latest the cell the outer element handler sets True
+    outer_done = root.child("on_completed")
+    rep.require(outer_done is not None, "outer on_completed")
+    lat = names_augmented(outer_next, ast.Add)
+    rep.require(len(lat) == 1, "switch_latest: the latest-id cell (incremented per inner)")
+    latest = lat[0]
+    stopped_flags = names_assigned_const(outer_done, True)
+    live_flags = names_assigned_const(outer_next, True)
+    rep.require(bool(stopped_flags) and bool(live_flags), "switch_latest: stopped / has-latest cells")
+    cap = [s for s in sites(outer_next) if isinstance(s.node, ast.Assign) and isinstance(s.node.targets[0], ast.Name) and cell_name(s.node.value) == latest]
+    inc = [s for s in sites(outer_next) if isinstance(s.node, ast.AugAssign) and cell_name(s.node.target) == latest and isinstance(s.node.op, ast.Add)]
     idv = u(cap[0].node.targets[0]) if cap else None
     ok = bool(cap) and bool(inc) and inc[0].index < cap[0].index < inner_sub[0].index
     rep.ob("W1-stale-guard", outer_next, f"latest += 1; {idv} = latest; ...subscribe(inner)", ok,
@@ -52,7 +72,7 @@ def check(repo: Repo, rep: Report) -> None:
         if g.parent is not outer_next:
             continue
         gt = TC.guards_text(s)
-        ok = any(("latest" in t and idv in t and "==" in t and not t.startswith("not")) for t in gt) if idv else False
+        ok = any(_eq_guard(e, p, latest, idv) for e, p in s.ctx.guards) if idv else False
         rep.ob("W1-stale-guard", g, f"inner {g.name}: {short(s.node)} under {gt}", ok,
                f"an inner sequence's {k} reaches the subscriber without `latest == {idv}` dominating it: a superseded inner "
                f"still emits / terminates the output")
@@ -74,10 +94,10 @@ def check(repo: Repo, rep: Report) -> None:
     for g, s, k in TC.downstream_sites(root, ("on_completed",)):
         gt = TC.guards_text(s)
         if g.parent is outer_next:
-            ok = any("is_stopped" in t and not t.startswith("not") for t in gt)
+            ok = any(p and cell_name(e) in stopped_flags for e, p in s.ctx.guards)
             rep.ob("W3-completion-join", g, f"inner completion: {gt}", ok, "the latest inner's completion completes the output although the outer has not completed")
         else:
-            ok = any("has_latest" in t and t.startswith("not") for t in gt) and any(
-                isinstance(x.node, ast.Assign) and "is_stopped" in u(x.node.targets[0]) and u(x.node.value) == "True" and x.index < s.index for x in sites(g))
+            ok = any((not p) and cell_name(e) in live_flags for e, p in s.ctx.guards) and any(
+                isinstance(x.node, ast.Assign) and cell_name(x.node.targets[0]) in stopped_flags and u(x.node.value) == "True" and x.index < s.index for x in sites(g))
             rep.ob("W3-completion-join", g, f"outer completion: {gt}", ok, "the outer's completion completes the output while the latest inner is still live")
     TC.composite_uses(repo, rep, "W4-delegations", COMPOSITES)
